@@ -5,6 +5,7 @@ go 1.23
 require (
 	github.com/google/uuid v1.3.0
 	github.com/hprose/hprose-golang/v3 v3.0.0
+	github.com/valyala/fasthttp v1.37.0
 	pgregory.net/rapid v1.3.0
 )
 
@@ -19,7 +20,6 @@ require (
 	github.com/orcaman/concurrent-map v1.0.0 // indirect
 	github.com/savsgio/gotils v0.0.0-20211223103454-d0aaa54c5899 // indirect
 	github.com/valyala/bytebufferpool v1.0.0 // indirect
-	github.com/valyala/fasthttp v1.37.0 // indirect
 )
 
 replace github.com/hprose/hprose-golang/v3 => /repo
